@@ -2,6 +2,16 @@
 
 # id -> dict(module, level, technique, decided, not_decided, design_ref)
 CLAIMS = {
+    'C01': dict(
+        module='c01', level='other',
+        technique='sparse conditional constant propagation over the integrator drivers (operator-sequence extraction) + exact rational arithmetic on the coefficient tables in the source',
+        decided='dispatch exhaustiveness of the integrator/option switches; for every composition scheme and option combination '
+                '(LEAPFROG; WHFast 4 kernels x 3 synchronisation states x correctors 3..17 x corrector2; 18 SABA types x 3 states; 9 EOS splittings in both shells; '
+                '5 JANUS schemes; MERCURIUS) the drift, kick, COM, jump and time coefficients of one full step each sum to 1*dt '
+                '(first-order consistency, |sum-1| <= 1e-14); EOS pre/post-processors and WHFast correctors are mutually inverse operator sequences; '
+                'coefficient tables agree with their exact definitions to 1 ulp.',
+        not_decided='order of accuracy beyond consistency and symmetry, adaptive step control, user ODE coupling, error constants (runtime numerics)',
+        design_ref='3/C01'),
     'C05': dict(
         module='c05', level='other',
         technique='table/layout agreement (descriptor table folded from LLVM IR vs clang record layout) + typestate walk of header/payload byte accounting in writer and reader',
